@@ -152,10 +152,12 @@ def run_check(pid, tier, seed, replay=None):
             # the model / driver itself no longer builds against the regenerated tables
             raise Infra("driver build failed:\n" + build_out[-3000:])
         targets = list(P.LEAN_TARGETS)
+        opt_thms = []
         for opt in getattr(P, "OPTIONAL_TARGETS", []):
             optfile = os.path.join(core.LEAN, *opt.split(".")) + ".lean"
             if os.path.exists(optfile) and not any(opt.split(".")[-1] in u for u in (regen.get("unavailable") or [])):
                 targets.append(opt)
+                opt_thms += list(getattr(P, "OPTIONAL_THEOREMS", {}).get(opt, []))
         rc, build_out = core.lake_build(targets)
         if rc != 0:
             ft = core.failing_theorems(build_out)
@@ -164,7 +166,7 @@ def run_check(pid, tier, seed, replay=None):
             proof_broken += [dict(kind="theorem-fails", **f) for f in ft]
         if not regen["ok"]:
             proof_broken.append({"kind": "translator-failed", "errors": regen["errors"]})
-        thms = list(P.THEOREMS)
+        thms = list(P.THEOREMS) + opt_thms
         n_obl = len(thms)
         discharged = 0
         if rc == 0:
